@@ -21,6 +21,7 @@ func init() {
 			{"WALK-PARTITION", func(c *eng.Ctx) { ruleWalkPartitionMerge(c) }},
 			{"WALK-STOP", ruleWalkStop},
 			{"MERGE-SERIAL", ruleMergeSerial},
+			{"SYNC-INDEX-TABLE", ruleSyncIndexTable},
 			{"UNKNOWN-FIELD-SKIP", ruleUnknownFieldSkip},
 			{"MERGE-FRESH-COLLECTION", ruleMergeFreshCollection},
 			{"ERRFLOW", func(c *eng.Ctx) {
